@@ -96,3 +96,50 @@ func genContext(g *gen) {
 		}
 	}
 }
+
+// genContextMore: further attributes whose short form stands in a base that an extending service
+// of the same file, or a later document, refines with a mapping / another entry (the refinement is
+// the same on both sides of a pair; only the spelling of the base differs).
+func genContextMore(g *gen) {
+	type tc struct {
+		attr       string
+		short      any
+		long       any
+		refinement any
+		top        m
+		files      map[string]string
+	}
+	cases := []tc{
+		{"build", "./app", m{"context": "./app"}, m{"dockerfile": "Dockerfile.dev"}, nil, nil},
+		{"build", "./app", m{"context": "./app"}, m{"args": m{"A": "1"}, "target": "prod"}, nil, nil},
+		{"build", "./app", m{"context": "./app"}, m{"dockerfile_inline": "FROM scratch\n"}, nil, nil},
+		{"env_file", "a.env", l{m{"path": "a.env", "required": true}}, l{"b.env"}, nil, map[string]string{"a.env": "A=1\n", "b.env": "B=2\n"}},
+		{"networks", l{"n1", "n2"}, m{"n1": nil, "n2": nil}, m{"n1": m{"aliases": l{"x"}}}, m{"networks": m{"n1": m{}, "n2": m{}}}, nil},
+		{"secrets", l{"s1"}, l{m{"source": "s1"}}, l{m{"source": "s2", "target": "two"}}, m{"secrets": m{"s1": m{"environment": "S1"}, "s2": m{"environment": "S2"}}}, nil},
+		{"configs", l{"c1"}, l{m{"source": "c1"}}, l{m{"source": "c2", "target": "/two"}}, m{"configs": m{"c1": m{"content": "1"}, "c2": m{"content": "2"}}}, nil},
+		{"volumes", l{"data:/d"}, l{m{"type": "volume", "source": "data", "target": "/d"}}, l{"other:/o"}, m{"volumes": m{"data": m{}, "other": m{}}}, nil},
+		{"ports", l{"8080:80"}, l{m{"target": 80, "published": "8080"}}, l{m{"target": 80, "published": "8080", "name": "web"}}, nil, nil},
+		{"healthcheck", m{"test": "exit 0"}, m{"test": l{"CMD-SHELL", "exit 0"}}, m{"interval": "10s"}, nil, nil},
+	}
+	for i, c := range cases {
+		for _, ctx := range []string{"extends-same-file", "documents"} {
+			mk := func(spelling any) string {
+				top := m{}
+				for k, v := range c.top {
+					top[k] = v
+				}
+				if ctx == "extends-same-file" {
+					top["services"] = m{"base": m{"image": "img", c.attr: spelling}, "s": m{"extends": m{"service": "base"}, c.attr: c.refinement}}
+					return toYAML(top)
+				}
+				top["services"] = m{"s": m{"image": "img", "labels": m{"first": "1"}}}
+				return toYAML(top) + "---\n" + toYAML(m{"services": m{"s": m{c.attr: spelling}}}) + "---\n" + toYAML(m{"services": m{"s": m{c.attr: c.refinement}}})
+			}
+			g.emit(pcase{Position: "services." + c.attr, Class: "under-" + ctx, Mode: "pair", Files: c.files,
+				Docs: []spelled{
+					{Name: "long", Text: "long base #" + itoa(i) + " refined", YAML: mk(c.long)},
+					{Name: "short", Text: "short base #" + itoa(i) + " refined", YAML: mk(c.short)},
+				}})
+		}
+	}
+}
